@@ -500,7 +500,8 @@ def sim(cls: type) -> Sim:
             # Add to the sim-attributes list
             # Special case Python's conventional "ignored" name, the underscore.
             # Leave attributes named "_"'s `name` field set to `None`.
-            if key != "_":
+            # Attributes without a `name` field - `Save` and the frozen `Literal` - are taken as they are.
+            if key != "_" and hasattr(val, "name"):
                 val.name = key
             attrs.append(val)
         else:  # Add to the forget-list
